@@ -281,6 +281,20 @@ def emit_shared_state(repo: Path, status: dict, flags: dict) -> None:
         flags["gen_no_shared_mutable_state"] = False; status["gen_no_shared_mutable_state"] = f"ERROR: {e}"
 
 
+def emit_helpers_pure(repo: Path, status: dict, flags: dict) -> None:
+    """no function of helpers.py edits an argument in place (a mutating method, an element / slice store, an augmented assignment, an in-place numpy function -
+    directly, through a local alias, through np.asarray / reshape / ravel ... which may return the SAME array, or through another helper).  The helpers are called
+    by the optimizers with their own objects and - documented in the README - by users' objective functions with data that belongs to the caller's task."""
+    try:
+        from . import talgo
+        hm, _ = talgo.param_mutations(repo)
+        bad = {k: v for k, v in hm.items() if v}
+        flags["gen_helpers_do_not_mutate_arguments"] = not bad
+        status["gen_helpers_do_not_mutate_arguments"] = "regenerated" if not bad else "UNSUPPORTED: helpers editing a parameter in place: " + ", ".join(f"{k}{v}" for k, v in sorted(bad.items()))
+    except Exception as e:
+        flags["gen_helpers_do_not_mutate_arguments"] = False; status["gen_helpers_do_not_mutate_arguments"] = f"ERROR: {e}"
+
+
 def emit_hash_order(repo: Path, status: dict, flags: dict) -> None:
     try:
         sites = hash_order_sites(repo)
@@ -381,6 +395,7 @@ def emit(repo: Path, status: dict) -> None:
     emit_encoder_shape(repo, status, flags)
     emit_hash_order(repo, status, flags)
     emit_shared_state(repo, status, flags)
+    emit_helpers_pure(repo, status, flags)
     emit_bounds_fresh(repo, status, flags)
     emit_multi(repo, status, flags)
     emit_enum(repo, status, flags)
